@@ -477,9 +477,12 @@ fn static_calls(rng: &mut Rng, out: &mut CaseOut) {
             }
         }
     }
-    // validate
-    let v = v_config(rate, k, r, size);
-    let what = format!("{}::validate({k},{r},{size})", rate.name());
+    // validate (allocates nothing, so huge even sizes are fair game here)
+    let vsize = if rng.chance(1, 5) { *rng.pick(&[1usize << 32, 1usize << 62, usize::MAX - 1, usize::MAX]) } else { size };
+    let v = v_config(rate, k, r, vsize);
+    let what = format!("{}::validate({k},{r},{vsize})", rate.name());
+    let size_for_ctor = size;
+    let size = vsize;
     let res = guarded(|| match rate {
         RateKind::High => HighRate::<NoSimd>::validate(k, r, size)
             .and(HighRateEncoder::<NoSimd>::validate(k, r, size))
@@ -493,6 +496,8 @@ fn static_calls(rng: &mut Rng, out: &mut CaseOut) {
     });
     judge(out, &what, &v, &res, &trail);
     // constructors (a successful one allocates: keep valid sizes small)
+    let size = size_for_ctor;
+    let v = v_config(rate, k, r, size);
     let size2 = if v.is_empty() { size.min(130) } else { size };
     let v2 = v_config(rate, k, r, size2);
     let api = if rate == RateKind::Default && rng.chance(1, 3) {
